@@ -11,6 +11,9 @@ func GetQuote(content bytes.Bytes, position bytes.Index) string {
 
 func quote(content bytes.Bytes, position bytes.Index) string {
 	const maxLength = 200
+	if content.Len() == 0 {
+		return "" // nothing to quote; BeginningOfLine indexes the content
+	}
 	begin := content.BeginningOfLine(position)
 	end := content.EndOfLine(position)
 	if end-begin > maxLength {
